@@ -306,9 +306,10 @@ CTL = [ONE, ONE, Z, ONE, Z]
 IX = [1, 2]
 H_INIT = dict(lv=[Z, ONE, Z], tm=[ONE, ONE], cv=[LIN], rel=[], loop=[], off=Z)
 H_ALPHABET = [
-    dict(n='fmt'), dict(n='ifmt'), dict(n='at', t=32),
+    dict(n='fmt'), dict(n='ifmt'), dict(n='at', t=32), dict(n='dur'),
     dict(n='ugenE', ctl=CTL), dict(n='ugenI', ix=IX), dict(n='ugenEI', ctl=CTL, ix=IX), dict(n='ugenIE', ctl=CTL, ix=IX),
-    dict(n='set_levels', lv=[ONE, [1, 2], [-1, 2]]), dict(n='set_times', tm=[[1, 2], ONE]),
+    dict(n='set_levels', lv=[ONE, Z, [-1, 1]]), dict(n='set_times', tm=[[1, 2], [3, 2]]),
+    dict(n='set_duration', d=[4, 1]),
     dict(n='set_curves', cv=[cv('hold'), LIN]), dict(n='set_release_node', node=[1]),
     dict(n='set_offset', off=ONE)]
 
@@ -361,6 +362,107 @@ def random_history(rnd, length):
     return dict(init=init, fl=rnd.randrange(2), ev=ev)
 
 
+# two instances: levels whose interior lies half way (linear maps keep that exact), times whose sum is a power of two
+DY_LEVELS = {2: [[Z, ONE, Z], [ONE, Z, [-1, 1]], [[1, 2], ONE, [3, 4]], [ONE, ONE, Z]],
+             3: [[Z, [2, 1], ONE, Z], [ONE, Z, Z, ONE], [Z, [1, 2], ONE, Z]]}
+DY_TIMES = {2: [[ONE, ONE], [[1, 2], [3, 2]], [[3, 8], [5, 8]], [ONE, [3, 1]]],
+            3: [[[1, 2], [1, 2], ONE], [ONE, ONE, [2, 1]], [[1, 4], [1, 4], [1, 2]]]}
+DY_DURS = [[1, 2], ONE, [2, 1], [4, 1]]
+DY_RANGES = [(Z, [2, 1]), ([1, 2], ONE), ([-1, 1], ONE)]
+DY_POS_RANGES = [([1, 4], [2, 1]), ([1, 2], ONE), (ONE, [4, 1])]
+OBS = ['fmt', 'ifmt', 'at', 'dur', 'ugenE', 'ugenI', 'ugenEI', 'ugenIE']
+
+
+def obs_event(rnd, name, i, n):
+    e = dict(n=name, i=i)
+    if name == 'at':
+        e['t'] = rnd.choice([0, 16, 32, 64, 96, 128, 200, 300])
+    if name.startswith('ugen'):
+        e['ctl'] = CTL
+        e['ix'] = IX
+    return e
+
+
+def two_valued(lv):
+    """every level is the least or the greatest one (None: unknown, treated as not two valued)"""
+    return lv is not None and len({a[0] * 64 // a[1] for a in lv}) <= 2
+
+
+def derive_event(rnd, src, levels):
+    kinds = ['range'] + (['exprange', 'curverange'] if two_valued(levels) else [])
+    kind = rnd.choice(kinds)
+    lo, hi = rnd.choice(DY_RANGES if kind != 'exprange' else DY_POS_RANGES)
+    return dict(n='derive', i=src, kind=kind, lo=lo, hi=hi)
+
+
+def setter_event(rnd, i, n):
+    k = rnd.choice(['set_levels', 'set_times', 'set_curves', 'set_release_node', 'set_loop_node', 'set_offset',
+                    'set_duration', 'set_duration'])
+    e = dict(n=k, i=i)
+    if k == 'set_levels':
+        e['lv'] = rnd.choice(DY_LEVELS[n])
+    elif k == 'set_times':
+        e['tm'] = rnd.choice(DY_TIMES[n])
+    elif k == 'set_curves':
+        e['cv'] = [rnd.choice([LIN, cv('hold'), cv('step'), cv('sine'), cnum(-4)]) for _ in range(rnd.randint(1, n))]
+    elif k == 'set_offset':
+        e['off'] = rnd.choice([Z, ONE, [1, 2]])
+    elif k == 'set_duration':
+        e['d'] = rnd.choice(DY_DURS)
+    else:
+        e['node'] = [rnd.randrange(n)] if rnd.random() < 0.7 else []
+    return e
+
+
+def family_history(rnd, length):
+    """operations on an instance and on the one derived from it, in any order"""
+    n = rnd.choice([2, 2, 3])
+    levels = {1: rnd.choice(DY_LEVELS[n])}
+    init = dict(lv=levels[1], tm=rnd.choice(DY_TIMES[n]), cv=[rnd.choice([LIN, cv('hold'), cnum(-4)])], rel=[], loop=[], off=Z)
+    ev = []
+    for _ in range(length):
+        have = sorted(levels)
+        x = rnd.random()
+        if (len(have) == 1 and x < 0.3) or x < 0.08:
+            src = rnd.choice(have)
+            e = derive_event(rnd, src, levels[src])
+            levels[3 - src] = None       # mapped: whatever they are, ends stay ends and the middle stays the middle
+            if levels[src] is not None and two_valued(levels[src]):
+                levels[3 - src] = [Z, ONE, Z] if n == 2 else [Z, ONE, ONE, Z]      # stands for "two valued"
+            ev.append(e)
+        elif x < 0.55:
+            i = rnd.choice(have)
+            e = setter_event(rnd, i, n)
+            if e['n'] == 'set_levels':
+                levels[i] = e['lv']
+            ev.append(e)
+        else:
+            ev.append(obs_event(rnd, rnd.choice(OBS), rnd.choice(have), n))
+    ev.append(obs_event(rnd, rnd.choice(OBS), rnd.choice(sorted(levels)), n))
+    return dict(init=init, fl=rnd.randrange(2), ev=ev)
+
+
+def family_structured(thorough, rnd):
+    """observe, derive, operate on either instance, observe either instance"""
+    out = []
+    sets = [dict(n='set_levels', lv=[ONE, Z, [-1, 1]]), dict(n='set_times', tm=[[1, 2], [3, 2]]),
+            dict(n='set_curves', cv=[cv('hold'), LIN]), dict(n='set_release_node', node=[1]), dict(n='set_offset', off=ONE),
+            dict(n='set_duration', d=[4, 1]), dict(n='set_duration', d=[1, 2])]
+    first = [None] + OBS[:4]
+    for o0 in first:
+        for kind, (lo, hi) in (('range', DY_RANGES[1]), ('exprange', DY_POS_RANGES[0]), ('curverange', DY_RANGES[0])):
+            for st in sets:
+                for i in (1, 2):
+                    for o2 in OBS:
+                        for j in (1, 2):
+                            if not thorough and rnd.random() > 0.07:
+                                continue
+                            ev = ([obs_event(rnd, o0, 1, 2)] if o0 else []) + [dict(n='derive', i=1, kind=kind, lo=lo, hi=hi)]
+                            ev += [dict(st, i=i), obs_event(rnd, o2, j, 2), obs_event(rnd, rnd.choice(OBS), 3 - j, 2)]
+                            out.append(dict(init=H_INIT, fl=0, ev=ev))
+    return out
+
+
 def run_hist_cases(ctx, cases):
     for i, c in enumerate(cases):
         c['id'] = i
@@ -374,8 +476,11 @@ def run_hist_cases(ctx, cases):
 
 
 def hist_brief(t):
-    return dict(init=t['init'], ops=[{k: v for k, v in e.items() if k in ('n', 't', 'lv', 'tm', 'cv', 'node', 'off')
-                                      and v not in ([], None)} for e in t['ev']])
+    keep = {'fmt': (), 'ifmt': (), 'dur': (), 'at': ('t',), 'derive': ('kind', 'lo', 'hi'), 'set_levels': ('lv',),
+            'set_times': ('tm',), 'set_curves': ('cv',), 'set_release_node': ('node',), 'set_loop_node': ('node',),
+            'set_offset': ('off',), 'set_duration': ('d',)}
+    return dict(init=t['init'], ops=[dict([('n', e['n']), ('i', e.get('i', 1))] + [(k, e.get(k)) for k in keep.get(e['n'], ())])
+                                     for e in t['ev']])
 
 
 def judge_hist(ctx, traces, label):
@@ -406,21 +511,25 @@ def judge_hist(ctx, traces, label):
 
 
 def histories(ctx, thorough, rnd):
-    acts = ('Fmt', 'IFmt', 'At', 'UgenE', 'UgenI', 'UgenBoth', 'Assign')
+    acts = ('Fmt', 'IFmt', 'At', 'Dur', 'UgenE', 'UgenI', 'UgenBoth', 'SetLevels', 'SetTimes', 'SetCurves', 'SetRel',
+            'SetOff', 'SetDuration', 'Derive')
     r = ctx.model_check('EnvObj', 'EnvObj_thorough.cfg' if thorough else 'EnvObj.cfg', require_cover=acts, timeout=900)
     ctx.expect_ok(r, 'Env instance: cached arrays dropped on assignment answer the current specification')
-    # sensitivity: without dropping the kept arrays the same invariant must fail
+    # sensitivity (thorough): without dropping the kept arrays / with a shared times cell rescaled in place the same
+    # invariant must fail
     from harness import tlc
-    r = tlc.run('EnvObj', 'EnvObj_stale.cfg', ctx.work, workers=4, timeout=300)
-    if r.ok or 'Coherent' not in r.violated:
-        raise MachineryError('EnvObj_stale: the stale-array history was not found (vacuous invariant?)')
-    ctx.cov['model_runs'].append(dict(module='EnvObj', cfg='EnvObj_stale.cfg', label='expected violation of Coherent',
-                                      **r.summary()))
+    for cfg in (('EnvObj_stale.cfg', 'EnvObj_inplace.cfg') if thorough else ()):
+        r = tlc.run('EnvObj', cfg, ctx.work, workers=4, timeout=300)
+        if r.ok or 'Coherent' not in r.violated:
+            raise MachineryError('%s: the breaking history was not found (vacuous invariant?)' % cfg)
+        ctx.cov['model_runs'].append(dict(module='EnvObj', cfg=cfg, label='expected violation of Coherent', **r.summary()))
     cases = []
     depth = 3
-    for h in itertools.product(H_ALPHABET, repeat=depth):
+    for h in itertools.chain(itertools.product(H_ALPHABET, repeat=2), itertools.product(H_ALPHABET, repeat=depth)):
         if h[-1]['n'].startswith('set_'):
             continue            # nothing is observed after the last assignment
+        if not thorough and len(h) == 3 and not h[1]['n'].startswith('set_'):
+            continue            # quick: all pairs, and every (operation, assignment, observation)
         cases.append(dict(init=H_INIT, fl=0, ev=[dict(e) for e in h]))
     if thorough:      # longer: two assignments then every pair of observations, in both orders
         sets = [e for e in H_ALPHABET if e['n'].startswith('set_')]
@@ -431,23 +540,28 @@ def histories(ctx, thorough, rnd):
                     for s2 in sets:
                         for o2 in obs[:4]:
                             cases.append(dict(init=H_INIT, fl=0, ev=[dict(x) for x in (o0, s1, o1, s2, o2)]))
+    fam = family_structured(thorough, rnd)
+    cases += fam
     n_ex = len(cases)
-    nr = 3000 if thorough else 150
+    nr = 3000 if thorough else 100
     cases += [random_history(rnd, rnd.randint(4, 12)) for _ in range(nr)]
+    nfam = 3000 if thorough else 160
+    cases += [family_history(rnd, rnd.randint(4, 10)) for _ in range(nfam)]
     # S->C: histories simulated by TLC from the instance model, with the answers it prescribes
-    nsim = 400 if thorough else 15
+    nsim = 400 if thorough else 12
     behs, r = tlc.simulate_behaviours('EnvObj', 'EnvObj_sim.cfg', ctx.work, num=nsim, depth=8, seed=ctx.seed + 3,
                                       timeout=600)
     ctx.cov['transitions'] += r.generated
     sim_expect = {}
     for b in behs:
-        init = b[0][1]['spec']
+        st0 = b[0][1]
+        init = st0['abs'][0]
         ev, exp = [], []
-        prev = init
         for act, st in b[1:]:
             n = st['last']['n']
-            sp = st['spec']
-            e = dict(n=n)
+            i = st['last']['i']
+            sp = st['abs'][i - 1]
+            e = dict(n=n, i=i)
             if n == 'at':
                 e['t'] = st['last']['t']
             elif n in ('ugenE', 'ugenEI'):
@@ -462,13 +576,24 @@ def histories(ctx, thorough, rnd):
                 e['cv'] = sp['cv']
             elif n == 'set_release_node':
                 e['node'] = sp['rel']
-            elif n == 'set_loop_node':
-                e['node'] = sp['loop']
             elif n == 'set_offset':
                 e['off'] = sp['off']
+            elif n == 'set_duration':
+                tot = [0, 1]
+                for x in sp['tm']:
+                    tot = [tot[0] * x[1] + x[0] * tot[1], tot[1] * x[1]]
+                from math import gcd
+                g = gcd(tot[0], tot[1])
+                e['d'] = [tot[0] // g, tot[1] // g]
+            elif n == 'derive':
+                # the model derives instance 2 from instance 1: recover the mapping from the two level lists
+                l1, l2 = st['abs'][0]['lv'], st['abs'][1]['lv']
+                vals = sorted(set(map(tuple, l2)), key=lambda r: r[0] / r[1])
+                e.update(kind='range', lo=list(vals[0]), hi=list(vals[-1]))
+                if len(set(map(tuple, l1))) == 1:
+                    e.update(lo=list(l2[0]), hi=list(l2[0]))
             ev.append(e)
             exp.append(st['last']['obs'])
-            prev = sp
         if ev:
             sim_expect[len(cases)] = exp
             cases.append(dict(init=init, fl=0, ev=ev))
@@ -481,9 +606,9 @@ def histories(ctx, thorough, rnd):
         if t['id'] in rejected:
             continue            # already decided (and reported) by the trace specification
         for k, (e, x) in enumerate(zip(t['ev'], exp)):
-            if e['n'].startswith('set_'):
+            if e['n'].startswith('set_') or e['n'] == 'derive':
                 continue
-            got = [e['r']['v'], e['r2']['v']] if e['n'] == 'ugenEI' else (e['r']['v'][0] if e['n'] == 'at' and e['r']['v'] else e['r']['v'])
+            got = [e['r']['v'], e['r2']['v']] if e['n'] == 'ugenEI' else (e['r']['v'][0] if e['n'] in ('at', 'dur') and e['r']['v'] else e['r']['v'])
             if e['r']['k'] != 'ok' or got != x:
                 ctx.violation('envobj:replay:%s' % e['n'],
                               'replayed instance history of the model: %s answered %s, the model %s; history %s'
@@ -491,7 +616,8 @@ def histories(ctx, thorough, rnd):
                               dict(kind='history', case=dict(init=t['init'], fl=0, ev=[{a: b for a, b in q.items() if a not in ('r', 'r2')} for q in t['ev']]),
                                    rejected_at=k + 1, why='replay'))
                 break
-    ctx.cov['instance_histories'] = dict(exhaustive=n_ex, depth=depth, random=nr, simulated_replayed=nrep)
+    ctx.cov['instance_histories'] = dict(exhaustive=n_ex - len(fam), depth=depth, two_instance_structured=len(fam),
+                                         random=nr, two_instance_random=nfam, simulated_replayed=nrep)
     ctx.sample(dict(history=hist_brief(traces[n_ex]), answers=[e['r']['v'][:8] for e in traces[n_ex]['ev']][:6]))
 
 
@@ -517,7 +643,7 @@ def run(ctx):
     n_ex = len(cases)
     cases += gen_ctors(thorough, rnd)
     n_ct = len(cases) - n_ex
-    nr = 3000 if thorough else 400
+    nr = 3000 if thorough else 300
     DENSE[0] = thorough        # the random envelopes are also evaluated near every breakpoint
     cases += gen_new_random(rnd, nr, 10 if thorough else 6)
     DENSE[0] = False
@@ -549,7 +675,7 @@ def run(ctx):
     t1 = time.time()
     # 3. S->C: envelopes and values produced by the specification replayed on the real class
     from harness import tlc
-    nsim = 400 if thorough else 15
+    nsim = 400 if thorough else 10
     behs, r = tlc.simulate_behaviours('Env', 'Env_sim.cfg', ctx.work, num=nsim, depth=8, seed=ctx.seed + 1,
                                       timeout=900)
     ctx.cov['transitions'] += r.generated
